@@ -2,6 +2,7 @@
 import os
 import random
 import shutil
+import struct
 import tempfile
 
 from vlib import basic
@@ -10,8 +11,10 @@ LEVEL = 'proof'
 RULE = ('DOS base names built from shapes (legal 8.3 over all allowable characters, trunk length 0..13, extension '
         'length 0..5, dots in every position, several dots, trailing dots / blanks / tabs, leading blanks, characters '
         'outside the allowable set incl. wildcards, control and non-ASCII bytes, empty and all-blank names, "." and '
-        '".."), each used under random capitalisations in histories of OPEN FOR OUTPUT / APPEND, SAVE, OPEN FOR INPUT, '
-        'LOAD, KILL (also wildcard masks), NAME, FILES [mask] on a native temp mount that starts empty or with host '
+        '".."), each used under random capitalisations in histories of every statement that creates or opens a file: '
+        'OPEN FOR OUTPUT / APPEND / INPUT, SAVE (tokenised, ,A, ,P), LIST ,"f", BSAVE, LOAD, RUN "f", CHAIN, MERGE, BLOAD, '
+        'plus KILL (also wildcard masks), NAME, FILES [mask]; a deterministic matrix creating statement x name shape '
+        '(no dot, dot, bare trailing dot, trailing blank, 8 characters) x every reading statement; on a native temp mount that starts empty or with host '
         'files (lower/mixed-case legal, long, non-ASCII, "+", hidden names); a case = one (directory, operation); '
         'non-trivial = the name is non-empty; plus random byte strings for dos_splitext / dos_normalise_name / '
         'dos_is_legal_name / dos_name_matches / _get_dos_name_defext / _get_dos_display_name')
@@ -22,7 +25,10 @@ EXPLANATION = ('theorems (PcbV.Props.C28) over every directory content, name and
                'to a file listed under that entry.  correspondence: after every statement of a history on a real '
                'Session the resolved host file (found through a unique marker in the file), the error number, the '
                'removed / renamed host files and the FILES columns are compared with the Lean model run on the '
-               'os.listdir content before the statement; module functions compared on random byte strings.  oracle: '
+               'os.listdir content before the statement (program statements SAVE / LIST ,"f" / BSAVE / LOAD / RUN / CHAIN / '
+               'MERGE / BLOAD are run through the model with default extension BAS, OPEN with none, so a statement that '
+               'passes the wrong file type to the disk device disagrees); module functions compared on random byte '
+               'strings.  oracle: '
                'written from the statement with its own 8.3 legality predicate and wildcard matcher: upper-case host '
                'name for legal names, same host file under every capitalisation for open / load / kill / rename / '
                'files, .BAS iff no dot for program files, error 64 and an unchanged directory for illegal names, '
@@ -43,6 +49,18 @@ WS = b' \t\n\r\x0b\x0c'
 ALLOWED = frozenset(bytearray(b"ABCDEFGHIJKLMNOPQRSTUVWXYZabcdefghijklmnopqrstuvwxyz0123456789 !#$%&'()-@^_`{}~"))
 DEVICES = (b'AUX', b'CON', b'NUL', b'PRN')
 BAS = b'BAS'
+# statement kinds of a history step
+CREATE_DATA = ('o', 'a')                    # OPEN FOR OUTPUT / APPEND
+CREATE_PROG = ('s', 't', 'p', 'L', 'B')     # SAVE ,A / SAVE (tokenised) / SAVE ,P / LIST ,"f" / BSAVE: default extension BAS
+CREATES = CREATE_DATA + CREATE_PROG
+WRITE_NEW = ('o',) + CREATE_PROG            # the resolved file gets new content
+READ_DATA = ('i',)                          # OPEN FOR INPUT
+READ_PROG = ('l', 'R', 'C', 'm', 'b')       # LOAD / RUN "f" / CHAIN / MERGE / BLOAD: default extension BAS
+READS = READ_DATA + READ_PROG
+PROG_KINDS = CREATE_PROG + READ_PROG
+# file formats (first byte) a reading statement can digest; on any other format it must still FIND the file
+COMPAT = {'i': 'A', 'l': 'ATP', 'R': 'ATP', 'C': 'ATP', 'm': 'A', 'b': 'M'}
+RESOLUTION_ERRORS = (52, 53, 64, 75, 76)
 KNOWN_CAP = 3     # report each expected deviation class only a few times (the failure list is bounded)
 
 
@@ -171,6 +189,8 @@ class World(object):
         self.session = basic.new_session(devices={'C': self.dir}, current_device='C')
         self.msgs = {v: k for k, v in error.BASICError.messages.items()}
         self.counter = 0
+        self.by_content = {}
+        self.current_id = None
 
     def close(self):
         try:
@@ -189,18 +209,35 @@ class World(object):
         for u in host_files:
             self.counter += 1
             with open(os.path.join(self.dir, u), 'wb') as f:
-                f.write(b'%d REM M%d\r\n' % (self.counter, self.counter))
+                f.write(b'%d PRINT " REM M%d"\r\n' % (self.counter, self.counter))
 
     def snapshot(self):
-        """{host name: marker id of the first line}, in os.listdir order"""
+        """{host name: (id of the file, size, format)}, in os.listdir order; the id is the marker in the first line of
+        a text file, the first line number of a tokenised program, the saved word of a BSAVE file; protected
+        programs are recognised by their content (recorded when the running step created them)"""
         snap = {}
         for n in os.listdir(self.dir):
             try:
                 with open(os.path.join(self.dir, n), 'rb') as f:
-                    head = f.read(40)
+                    data = f.read(4096)
             except EnvironmentError:
-                head = b''
-            snap[n] = (marker_of(head), os.path.getsize(os.path.join(self.dir, n)))
+                data = b''
+            first = data[:1]
+            if first == b'\xff' and len(data) >= 5:
+                fmt, ident = 'T', struct.unpack('<H', data[3:5])[0]
+            elif first == b'\xfd' and len(data) >= 9:
+                fmt, ident = 'M', struct.unpack('<H', data[7:9])[0]
+            elif first == b'\xfe':
+                fmt = 'P'
+                # (APPEND to such a file removes the final EOF byte and adds text: match on the saved part)
+                known = [c for c in self.by_content if data.startswith(c)]
+                if not known and self.current_id is not None:
+                    self.by_content[data[:-1] if data.endswith(b'\x1a') else data] = self.current_id
+                    known = [c for c in self.by_content if data.startswith(c)]
+                ident = self.by_content[max(known, key=len)] if known else None
+            else:
+                fmt, ident = 'A', marker_of(data[:60])
+            snap[n] = (ident, os.path.getsize(os.path.join(self.dir, n)), fmt)
         return snap
 
     def error_of(self, out):
@@ -220,25 +257,41 @@ class World(object):
         res = {'err': None, 'marker': None, 'listing': None, 'id': k}
         if kind != 'F':
             self.ex(b'A$=' + lit(a))
+        self.current_id = k
+        line = b'%d PRINT " REM M%d"' % (k, k)
         if kind in ('o', 'a'):
-            out = self.ex(b'OPEN A$ FOR %s AS 1:PRINT#1,"%d REM M%d":CLOSE'
+            out = self.ex(b'OPEN A$ FOR %s AS 1:PRINT#1,"%d PRINT "+CHR$(34)+" REM M%d"+CHR$(34):CLOSE'
                           % (b'OUTPUT' if kind == 'o' else b'APPEND', k, k))
             self.ex(b'CLOSE')
-        elif kind == 's':
+        elif kind in ('s', 't', 'p', 'L'):
             self.ex(b'NEW')
-            self.ex(b'%d REM M%d' % (k, k))
+            self.ex(line)
             self.ex(b'A$=' + lit(a))
-            out = self.ex(b'SAVE A$,A')
+            out = self.ex({'s': b'SAVE A$,A', 't': b'SAVE A$', 'p': b'SAVE A$,P', 'L': b'LIST ,A$'}[kind])
+        elif kind == 'B':
+            out = self.ex(b'DEF SEG=&HB800:POKE 0,%d:POKE 1,%d:BSAVE A$,0,2' % (k & 255, k >> 8))
+            self.ex(b'DEF SEG')
         elif kind == 'i':
             out = self.ex(b'L$="":OPEN A$ FOR INPUT AS 1:LINE INPUT#1,L$:CLOSE:PRINT L$')
             self.ex(b'CLOSE')
-            res['marker'] = marker_of(out)
-        elif kind == 'l':
+            # a text line of ours only (a binary program file with appended text would show a later marker)
+            res['marker'] = marker_of(out) if out.split(b' PRINT " REM M')[0].isdigit() else None
+        elif kind in ('l', 'm'):
             self.ex(b'NEW')
             self.ex(b'A$=' + lit(a))
-            out = self.ex(b'LOAD A$')
+            out = self.ex(b'LOAD A$' if kind == 'l' else b'MERGE A$')
             if self.error_of(out) is None:
-                res['marker'] = marker_of(self.ex(b'LIST'))
+                res['marker'] = marker_of(self.ex(b'RUN'))
+        elif kind in ('R', 'C'):
+            self.ex(b'NEW')
+            self.ex(b'A$=' + lit(a))
+            out = self.ex(b'RUN A$' if kind == 'R' else b'CHAIN A$')
+            res['marker'] = marker_of(out)
+        elif kind == 'b':
+            out = self.ex(b'DEF SEG=&HB800:POKE 0,0:POKE 1,0:BLOAD A$,0:X=PEEK(0)+256*PEEK(1):DEF SEG:'
+                          b'PRINT " REM M";MID$(STR$(X),2)')
+            self.ex(b'DEF SEG')
+            res['marker'] = marker_of(out) or None
         elif kind == 'k':
             out = self.ex(b'KILL A$')
         elif kind == 'n':
@@ -297,11 +350,11 @@ def model_words(op):
     kind, a, b = op
     if kind in ('o', 'a'):
         return 'o %s -' % hx(a)
-    if kind == 's':
+    if kind in CREATE_PROG:
         return 'o %s %s' % (hx(a), hx(BAS))
     if kind == 'i':
         return 'i %s -' % hx(a)
-    if kind == 'l':
+    if kind in READ_PROG:
         return 'i %s %s' % (hx(a), hx(BAS))
     if kind == 'k':
         return 'k %s' % hx(a)
@@ -317,12 +370,15 @@ def impl_reply(op, res, before, after):
     kind = op[0]
     tail = ' | ' + show_dir(sorted(after))
     err = res['err']
+    if kind in READS and ((err is not None and err not in RESOLUTION_ERRORS) or (err is None and res['marker'] is None)):
+        # the file was found but the statement cannot digest its format: the resolved name is not observable
+        return None
     if err is not None:
         return ('err %s' % err) + tail
-    if kind in ('o', 'a', 's'):
+    if kind in CREATES:
         changed = [n for n in after if before.get(n) != after[n]]
         return 'ok ' + (show_name(changed[0]) if len(changed) == 1 else '?%d' % len(changed)) + tail
-    if kind in ('i', 'l'):
+    if kind in READS:
         hit = [n for n in before if before[n][0] == res['marker'] and res['marker'] is not None]
         return 'ok ' + (show_name(hit[0]) if len(hit) == 1 else '?%d' % len(hit)) + tail
     if kind == 'k':
@@ -387,17 +443,27 @@ class Oracle(object):
         hits = self.keymap(host).get(key, [])
         if len(hits) > 1:
             return None
-        if kind in ('o', 's'):
-            return (None, {(hits[0] if hits else key.decode('ascii')): new_id}, None)
-        if kind == 'a':
-            return (None, {hits[0]: host[hits[0]][0]} if hits else {key.decode('ascii'): new_id}, None)
-        if kind in ('i', 'l'):
-            return (None, {}, host[hits[0]][0]) if hits else (53, {}, None)
+        if kind in CREATES or kind in READS:
+            return self.expect_target(host, kind, hits[0] if hits else None, key.decode('ascii'), new_id)
         if kind == 'k':
             if hits and not hidden(hits[0]):
                 return (None, {hits[0]: None}, None)
             return (53, {}, None)
         raise ValueError(kind)
+
+    @staticmethod
+    def expect_target(host, kind, u, newname, new_id):
+        """expected (err, changes, marker) when the name resolves to the host file u (None: to no file)"""
+        if kind in WRITE_NEW:
+            return (None, {(u or newname): new_id}, None)
+        if kind == 'a':
+            return (None, {u: host[u][0]} if u else {newname: new_id}, None)
+        if u is None:
+            return (53, {}, None)
+        if host[u][2] in COMPAT[kind] and host[u][0] is not None:
+            return (None, {}, host[u][0])
+        # the statement cannot digest this file format; it must still have found the file
+        return ('found', {}, None)
 
     @staticmethod
     def observed(res, before, after):
@@ -412,13 +478,15 @@ class Oracle(object):
 
     @staticmethod
     def same(exp, obs, kind):
+        if exp[0] == 'found':
+            return obs[1] == {} and obs[0] not in (52, 53, 64)
         if exp[0] != obs[0]:
             return False
         if obs[0] is not None:
             return obs[1] == {}
         if exp[1] != obs[1]:
             return False
-        return exp[2] == obs[2] if kind in ('i', 'l') else True
+        return exp[2] == obs[2] if kind in READS else True
 
     def check(self, hist_case, op, res, before, after):
         kind, a, b = op
@@ -428,7 +496,7 @@ class Oracle(object):
         if isinstance(res['err'], str):
             self.report('host-exception:%s' % kind, case, '%s: %s escaped Session.execute' % (desc, res['err']))
             return
-        if kind in ('o', 'a', 's', 'i', 'l'):
+        if kind in CREATES or kind in READS:
             self.check_access(case, desc, kind, a, res, before, obs)
         elif kind == 'k':
             self.check_kill(case, desc, a, before, obs)
@@ -440,10 +508,10 @@ class Oracle(object):
     # -- OPEN / SAVE / LOAD ---------------------------------------------------------------
 
     def check_access(self, case, desc, kind, a, res, before, obs):
-        program = kind in ('s', 'l')
+        program = kind in PROG_KINDS
         n = canon(a, program)
         cls = classify(a, n)
-        self.ctx.count('oracle %s %s' % ('create' if kind in 'oas' else 'read', cls))
+        self.ctx.count('oracle %s %s' % ('create' if kind in CREATES else 'read', cls))
         if cls == 'legal':
             exp = self.expect_legal(before, kind, n, res['id'])
             if exp is None:
@@ -452,7 +520,7 @@ class Oracle(object):
             if not self.same(exp, obs, kind):
                 self.report('legal-name:%s' % kind, case, '%s on %r: expected (err, host changes, marker) %r, observed %r'
                             % (desc, sorted(before), exp, obs))
-            elif kind in ('o', 's', 'a') and obs[1]:
+            elif kind in CREATES and obs[1]:
                 created = [u for u in obs[1] if u not in before]
                 for u in created:
                     if u != u.upper() or len(u) > 12:
@@ -470,9 +538,7 @@ class Oracle(object):
         if cls in ('overlong', 'bad', 'empty-trunk'):
             u = self.asis(before, n)
             if u is not None:
-                exp = {'o': (None, {u: res['id']}, None), 's': (None, {u: res['id']}, None),
-                       'a': (None, {u: before[u][0]}, None), 'i': (None, {}, before[u][0]),
-                       'l': (None, {}, before[u][0])}[kind]
+                exp = self.expect_target(before, kind, u, u, res['id'])
                 if self.same(exp, obs, kind):
                     return self.report('illegal-name-asis-match', case,
                                        '%s: the host file spelled exactly like the illegal name is used' % desc, known=True)
@@ -486,7 +552,7 @@ class Oracle(object):
                                    % (desc, truncate83(n)), known=True)
         if cls == 'empty-trunk':
             u = truncate83(b'X' + n)[1:].upper().decode('ascii')
-            if set(obs[1]) <= {u} and obs[0] in (None, 53):
+            if set(obs[1]) <= {u} and (obs[0] in (None, 53) or (kind in READ_PROG and obs[0] != 64)):
                 return self.report('empty-trunk-accepted', case, '%s: a name without name part is accepted (host %r)'
                                    % (desc, u), known=True)
         self.report('illegal-name:%s:%s' % (cls, kind), case,
@@ -602,7 +668,12 @@ class Oracle(object):
         rng = self.ctx.rng
         for e in rng.sample(listed, min(len(listed), 2)):
             cap = random_case(rng, e)
-            r2 = self.world.run_op(('i', cap, None))
+            fmt = before[km[e][0]][2] if e in km else 'A'
+            if fmt == 'A':
+                r2 = self.world.run_op(('i', cap, None))
+            else:
+                # a program / memory image: read it with RUN "f" / BLOAD (a trailing dot keeps the bare name)
+                r2 = self.world.run_op(('b' if fmt == 'M' else 'R', cap if b'.' in cap else cap + b'.', None))
             if e in km and r2['err'] is None and r2['marker'] == before[km[e][0]][0]:
                 self.ctx.count('oracle files entry opened')
                 continue
@@ -730,14 +801,14 @@ def gen_history(rng, nops):
     for _ in range(nops):
         r = rng.random()
         a = decorate(rng, rng.choice(pool))
-        if r < 0.22:
+        if r < 0.20:
             ops.append((rng.choice('ooa'), a, None))
-        elif r < 0.32:
-            ops.append(('s', a, None))
-        elif r < 0.47:
+        elif r < 0.33:
+            ops.append((rng.choice('sstpLLB'), a, None))
+        elif r < 0.45:
             ops.append(('i', a, None))
-        elif r < 0.55:
-            ops.append(('l', a, None))
+        elif r < 0.56:
+            ops.append((rng.choice('llRRCmb'), a, None))
         elif r < 0.70:
             if rng.random() < 0.3:
                 a = wild_mask(rng, rng.choice(pool))
@@ -785,9 +856,13 @@ def run_history(ctx, world, oracle, seeds, ops, cases, impls, lines):
         ctx.count('result ' + ('ok' if res['err'] is None else 'err %s' % res['err']))
         if op[1]:
             ctx.case((op[0], op[1], op[2], tuple(sorted(before))))
-        cases.append({'seeds': seeds, 'ops': list(hist_case['ops'])})
-        impls.append(impl_reply(op, res, before, after))
-        lines.append('step %s %s' % (show_dir(list(before)), model_words(op)))
+        reply = impl_reply(op, res, before, after)
+        if reply is None:
+            ctx.count('correspondence skipped: file found, format not readable by the statement')
+        else:
+            cases.append({'seeds': seeds, 'ops': list(hist_case['ops'])})
+            impls.append(reply)
+            lines.append('step %s %s' % (show_dir(list(before)), model_words(op)))
         oracle.check({'seeds': seeds, 'ops': list(hist_case['ops'])}, op, res, before, after)
 
 
@@ -905,6 +980,10 @@ def fixed_histories(ctx):
          [('F', None, None), ('i', b'LOWER.TXT', None), ('o', b'Lower.Txt', None), ('k', b'LOWER.txt', None),
           ('i', b'LongFileName.txt', None), ('i', b'longfilename.txt', None), ('f', b'*.txt', None), ('k', b'*.*', None),
           ('F', None, None)]),
+        ([], [('L', b'LiStEd', None), ('L', b'dotted.txt', None), ('L', b'nodot.', None), ('F', None, None),
+              ('f', b'*.BAS', None), ('l', b'listed', None), ('R', b'LISTED.bas', None), ('m', b'Listed', None),
+              ('t', b'tok', None), ('p', b'prot', None), ('B', b'mem', None), ('b', b'MEM', None), ('C', b'TOK', None),
+              ('R', b'Prot.Bas', None), ('k', b'LISTED.bas', None), ('k', b'tok.BAS', None), ('F', None, None)]),
         ([u'abc.txt'], [('n', b'ABC.TXT', b'abc.txt'), ('n', b'ABC.TXT', b'Abc.Dat'), ('o', b'ABC.DAT', None),
                         ('a', b'abc.dat', None), ('i', b'ABC.dat', None)]),
     ]
@@ -917,7 +996,43 @@ def fixed_histories(ctx):
     ctx.sample({'line': lines[0], 'impl': impls[0]})
 
 
+def statement_matrix(ctx):
+    """every statement that creates a file x name shape (no dot / dot / bare trailing dot / trailing blank / 8 characters),
+    followed by every statement that opens a file for reading, FILES and KILL, each under its own capitalisation:
+    the exact host name created (.BAS exactly for program statements and dot-less names) and mutual reachability"""
+    rng = ctx.rng
+    world = World()
+    oracle = Oracle(ctx, world)
+    cases, impls, lines = [], [], []
+    try:
+        for c in CREATES:
+            for shape in range(5):
+                t = legal_part(rng, 8 if shape == 4 else rng.randrange(1, 8))
+                name = [t, t + b'.' + legal_part(rng, rng.randrange(1, 4)), t + b'.', t + b' ', t][shape]
+                if name.rstrip(WS).upper() in DEVICES:
+                    name = b'Q' + name[1:]
+                full = canon(name, c in CREATE_PROG)
+                other = t if shape in (1, 2) else t + b'.'       # the same trunk with the other treatment of the extension
+                ops = [(c, decorate(rng, name), None)]
+                for r in READS:
+                    ops.append((r, decorate(rng, name), None))
+                ops.append(('f', b'*.BAS' if rng.random() < 0.5 else b'*.bas', None))
+                ops.append(('F', None, None))
+                ops.append((rng.choice(CREATE_PROG), decorate(rng, other), None))
+                ops.append((rng.choice(READ_PROG), decorate(rng, other), None))
+                ops.append(('n', decorate(rng, full), decorate(rng, b'N' + t[:7])))
+                ops.append((rng.choice('lRC'), decorate(rng, b'N' + t[:7] + b'.'), None))
+                ops.append(('k', decorate(rng, b'N' + t[:7]), None))
+                ops.append(('F', None, None))
+                run_history(ctx, world, oracle, [], ops, cases, impls, lines)
+    finally:
+        world.close()
+    ctx.compare(cases, impls, lines, 'statement matrix step')
+    ctx.sample({'line': lines[0], 'impl': impls[0]})
+
+
 def run(ctx):
+    statement_matrix(ctx)
     fixed_histories(ctx)
     functions(ctx, 3000 if ctx.quick else 60000)
     if ctx.quick:
